@@ -594,10 +594,11 @@ class SymBool:
 
 class SymInt:
     """Python int as a signed bit-vector that is always wide enough: no operation wraps."""
-    __slots__ = ("t",)
+    __slots__ = ("t", "_b8")
 
     def __init__(self, t):
         self.t = t
+        self._b8 = None
 
     @property
     def w(self):
@@ -860,13 +861,26 @@ class SymScaled:
         return "<scaled>"
 
 
+_BV8 = {}
+
+
 def byte_term(e):
-    """8-bit term of a bytes element"""
+    """8-bit term of a bytes element (cached: byte comparisons dominate the reader harnesses)"""
     if isinstance(e, int):
-        return bv(e, 8)
-    if e.w >= 8:
-        return z3.Extract(7, 0, e.t)
-    return z3.ZeroExt(8 - e.w, e.t)
+        t = _BV8.get(e)
+        if t is None:
+            t = _BV8[e] = bv(e, 8)
+        return t
+    t = e._b8
+    if t is None:
+        if e.w >= 8:
+            t = z3.Extract(7, 0, e.t)
+            if e.w == 9 and z3.is_app_of(e.t, z3.Z3_OP_ZERO_EXT):
+                t = e.t.arg(0)                  # ZeroExt(1, x8): the byte variable itself
+        else:
+            t = z3.ZeroExt(8 - e.w, e.t)
+        e._b8 = t
+    return t
 
 
 def same_elem(a, b):
